@@ -240,6 +240,47 @@ class Prop:
                 ctx.fail('a decoded field differs from the encoded value', dict(inp, field=bad[0][0]),
                          bad[0][1], bad[0][2], {'kind': 'field', 'class': cname, 'fields': sorted(k for k, _, _ in bad)[:3], 'how': how})
 
+        # the sentences of a multi-sentence message handed to decode() in reverse order, and sent through the readers
+        # and the queue behind the remains of an earlier message that lost its middle sentence (the encoder gives
+        # every multi-sentence message the sequence id 0, so they all share one reassembly slot per channel)
+        import re
+        rops, rmeta = [], []
+        for (cname, via, exp, inp), fwd, dop in zip(dmeta, douts, dops):
+            sents = dop.split()[2:]
+            if len(sents) < 2 or fwd.startswith('ERR'):
+                continue
+            rops.append('decode 0 ' + ' '.join(sents[::-1]))
+            rmeta.append(('reversed', cname, inp, fwd, None))
+            if len(sents) == 2:
+                chan = bytes.fromhex(sents[0]).split(b',')[4].decode()
+                lost = [x.hex() for x in self.lossy_prefix(chan)]
+                for fe in ('queue', 'iter'):
+                    rops.append('stream %s 0 %s' % (fe, ' '.join(lost + sents)))
+                    rmeta.append((fe, cname, inp, fwd, b'\n'.join(bytes.fromhex(x) for x in sents).hex()))
+        routs = ctx.corr(rops, impl.step, 'decode-reversed/readers') if corr else [impl.step(o) for o in rops]
+        for (how, cname, inp, fwd, raw), o, op in zip(rmeta, routs, rops):
+            if how == 'reversed':
+                if o != fwd:
+                    ctx.fail('decode() of the sentences in reverse order differs from decode() in the order emitted',
+                             dict(inp, reader_op=op), fwd[:200], o[:200], {'kind': 'reversed', 'class': cname})
+            else:
+                raws = re.findall(r'\[raw=(\S*) ', o)
+                if raws != [raw]:
+                    ctx.fail('the message does not come back from the %s behind the remains of an incomplete message'
+                             % ('NMEAQueue' if how == 'queue' else 'reader'), dict(inp, reader_op=op), [raw[:60]],
+                             [r[:60] for r in raws] or o[:200], {'kind': 'lossy-channel', 'class': cname, 'frontend': how})
+
+    _lossy = {}
+
+    def lossy_prefix(self, chan):
+        """sentences 1 and 3 of a three-sentence message on the given channel (number 2 was lost)"""
+        if chan not in self._lossy:
+            bits = gen.payload_bits(__import__('random').Random(7), 'MessageType8', length=1008)
+            payload, _ = gen.armor(bits)
+            three = gen.render(bits, seq='0', chan=chan, cuts=[60, 120])
+            self._lossy[chan] = [three[0], three[2]]
+        return self._lossy[chan]
+
     def run(self, ctx):
         ops, meta = self.make_cases(ctx, 40 if ctx.tier == 'quick' else 400)
         self.evaluate(ctx, ops, meta)
@@ -252,6 +293,8 @@ class Prop:
 
     def replay(self, ctx, payload):
         inp = payload['failure']['input']
+        if 'reader_op' in inp:
+            return None          # regenerated from the recorded seed by the generic replay
         meta = [(inp['class'], inp['via'], inp['expected'], inp)]
         self.evaluate(ctx, [inp['op']], meta, corr=False)
         return not ctx.failures
